@@ -11,60 +11,9 @@
 (*  - larger arenas (lengths up to 1 MiB) are decided on the runs themselves (RunJudge),    *)
 (*    which is exactly equivalent because Tag has period 251 - the equivalence is checked   *)
 (*    exhaustively by TLC on a scaled-down period in MemRunLemma.tla.                       *)
-EXTENDS Mem, TLC, Json, IOUtils, SequencesExt
-CONSTANTS PERIOD, CellLimit
+EXTENDS MemRuns, TLC, Json, IOUtils, SequencesExt
+CONSTANTS CellLimit
 Rec == ndJsonDeserialize(IOEnv.TRACE)
-
-Tag(i) == (i % PERIOD) + 1
-TagMem(L) == [i \in 0..L-1 |-> Tag(i)]
-Max2(a, b) == IF a > b THEN a ELSE b
-Min2(a, b) == IF a < b THEN a ELSE b
-
-\* runs are consecutive, non-empty, and cover 0..L-1 exactly; tag runs stay inside the arena
-RunsCover(runs, L) ==
-    /\ Len(runs) >= 1
-    /\ runs[1][1] = 0
-    /\ \A k \in 1..Len(runs) :
-          /\ runs[k][2] >= 1
-          /\ runs[k][3] \in {0, 1}
-          /\ runs[k][3] = 0 => runs[k][1] + runs[k][4] >= 0 /\ runs[k][1] + runs[k][2] + runs[k][4] <= L
-          /\ runs[k][3] = 1 => runs[k][4] \in 0..255
-    /\ \A k \in 1..Len(runs)-1 : runs[k+1][1] = runs[k][1] + runs[k][2]
-    /\ runs[Len(runs)][1] + runs[Len(runs)][2] = L
-
-RunOf(runs, i) == CHOOSE k \in 1..Len(runs) : runs[k][1] <= i /\ i < runs[k][1] + runs[k][2]
-Decode(runs, L) ==
-    [i \in 0..L-1 |-> LET r == runs[RunOf(runs, i)] IN IF r[3] = 0 THEN Tag(i + r[4]) ELSE r[4]]
-
-InArena(r) == r.n >= 0 /\ r.d >= 0 /\ r.d + r.n <= r.L
-IsCopy(r) == r.f \in {"memcpy", "memmove"}
-Pre(r) ==  \* the call is inside the property's quantifier
-    /\ InArena(r)
-    /\ IsCopy(r) => r.s >= 0 /\ r.s + r.n <= r.L
-    /\ r.f = "memcpy" => Disjoint(r.d, r.s, r.n)
-
-Expected(r) == IF IsCopy(r) THEN Memmove(TagMem(r.L), r.d, r.s, r.n)
-                            ELSE Memset(TagMem(r.L), r.d, r.c, r.n)
-CellJudge(r) == RunsCover(r.runs, r.L) /\ Decode(r.runs, r.L) = Expected(r)
-
-\* ---- the same decision taken on the runs --------------------------------------------------
-\* a piece of the expected memory: cells [lo,hi) all hold Tag(i+ev) (ek = 0) or all hold ev (ek = 1)
-PieceOK(run, lo, hi, ek, ev) ==
-    LET a == Max2(run[1], lo)
-        b == Min2(run[1] + run[2], hi)
-    IN  \/ a >= b
-        \/ /\ a < b
-           /\ CASE run[3] = 0 /\ ek = 0 -> (run[4] - ev) % PERIOD = 0
-                [] run[3] = 1 /\ ek = 1 -> run[4] = ev
-                [] run[3] = 0 /\ ek = 1 -> b = a + 1 /\ Tag(a + run[4]) = ev
-                [] run[3] = 1 /\ ek = 0 -> b = a + 1 /\ run[4] = Tag(a + ev)
-RunJudge(r) ==
-    /\ RunsCover(r.runs, r.L)
-    /\ \A k \in 1..Len(r.runs) :
-          /\ PieceOK(r.runs[k], 0, r.d, 0, 0)
-          /\ IF IsCopy(r) THEN PieceOK(r.runs[k], r.d, r.d + r.n, 0, r.s - r.d)
-                          ELSE PieceOK(r.runs[k], r.d, r.d + r.n, 1, AsByte(r.c))
-          /\ PieceOK(r.runs[k], r.d + r.n, r.L, 0, 0)
 
 JudgeCmp(r) == /\ Len(r.a) = r.n /\ Len(r.b) = r.n
                /\ IF r.f = "memcmp" THEN MemcmpOk(r.a, r.b, r.n, r.ret) ELSE BcmpOk(r.a, r.b, r.n, r.ret)
